@@ -1,8 +1,8 @@
 # CPU_OFF and COMMON_ASSUME are injected by props.py
 SPEC = {
     "bins": [
-        # black-box: default build in the quick tier; purego build and GODEBUG cpu.* switches in the thorough tier
-        {"name": "c06", "pkg": "./zz_verif/c06", "run": ".", "configs": CPU_OFF, "quick_configs": ["default"],
+        # black-box: default, purego (generic Go) and all-off (legacy assembly) in the quick tier; all six configurations in the thorough tier
+        {"name": "c06", "pkg": "./zz_verif/c06", "run": ".", "configs": CPU_OFF, "quick_configs": ["default", "purego", "alloff"],
          "shards": {"quick": 2, "thorough": 4}},
         # white-box: generic Go, legacy assembly and BMI2/ADX assembly side by side in one process
         {"name": "c06-wb-x25519", "pkg": "./dh/x25519", "run": "^TestVerifC06", "whitebox": True, "shards": {"quick": 1, "thorough": 8}},
